@@ -669,6 +669,30 @@ def kani_c09(prop, tier, seed):
     ], prop)(prop, tier, seed)
 
 
+def extra_c03_ast(prop, tier, seed):
+    """Bounded stand-in (labelled, never counted) for the second sentence of C03: a deterministic generator writes
+    documents of 1-3 rules (type / group rules, sockets, generic parameters, =, /=, //=; nesting depth <= 3 of
+    choices, range and control operators, arrays, maps, enumerations, unwrap, tags, group choices, entries with
+    occurrences, bareword / value / type member keys with and without cut, generic arguments) together with a
+    structural signature of what it wrote; the signature read back from the AST of the REAL parser must be equal,
+    and every generated document must be accepted."""
+    n = '50000' if tier == 'thorough' else '6000'
+    out, err = _replay(['u10b', 'find', n], timeout=3000)
+    if out is None:
+        raise engine.Undecided('replay-failed', err)
+    res = {'violations': [], 'bounded': [{'check': 'AST of the real parser mirrors the derivation of generated documents (rule order, kind, names, sockets, generic parameters, assignment operator, nesting of choices / groups / occurrences / member keys / operators)',
+                                          'bound': '%s generated documents, 1-3 rules, nesting depth <= 3, fixed seeds' % n, 'documents': out.get('tried'), 'found': out.get('found')}]}
+    if out.get('found'):
+        w = {'seed': out['witness']['seed']}
+        res['violations'].append({
+            'unit': 'U10b', 'label': 'ast:mirrors-the-derivation', 'fn': 'cddl_from_pest_str / convert_* (src/pest_bridge.rs)',
+            'message': 'the AST differs from the derivation of a generated document, or the document is rejected', 'clause': [], 'engine': 'replay',
+            'verifier_output': json.dumps(out)[:3000],
+            'fixed_witness': {'found': True, 'witness': dict(w, doc=out['witness'].get('doc')), 'real': out.get('real'),
+                              'replay_args': ['u10b', 'replay', json.dumps(w)]}})
+    return res
+
+
 def kani_c03(prop, tier, seed):
     control_names()
     return kani.part([
@@ -909,12 +933,12 @@ PROPS = {
         'assumptions': ['the reader behind the Decoder is an in-memory byte source (std::io::Cursor<&[u8]>, the only instantiation in the crate)'],
     },
     'C03': {
-        'extra': [kani_c03, extra_c03_parser],
+        'extra': [kani_c03, extra_c03_parser, extra_c03_ast],
         'witness': witness_u10,
         'engine': 'kx',
         'technique': 'Kani harnesses over the control-name list extracted from cddl.pest on every run (finite, complete) + real-parser execution over the same list',
-        'level_text': 'Control-operator closure only: (1) Kani proves for the real lookup_control_from_str that every alternative of the grammar rule control_name maps to an operator and distinct names map to distinct operators (finite list, complete), and - bounded to 14-byte texts - that nothing else is accepted; (2) the real parser is executed on every listed name and must accept it with that operator (found the .cborseq shadowing defect, fixed). Language equality with the RFC ABNF and the AST-mirroring clause are not decided.',
-        'level_note': 'Trusted: Kani/CBMC, the regex-based extraction of the control_name alternatives from cddl.pest. Not covered: all other grammar rules (pest PEG vs ABNF), AST shape.',
+        'level_text': 'Control-operator closure only: (1) Kani proves for the real lookup_control_from_str that every alternative of the grammar rule control_name maps to an operator and distinct names map to distinct operators (finite list, complete), and - bounded to 14-byte texts - that nothing else is accepted; (2) the real parser is executed on every listed name and must accept it with that operator (found the .cborseq shadowing defect, fixed). Language equality with the RFC ABNF is not decided. The AST-mirroring clause is outside both verifiers (pest Pairs, convert_* build Strings and Vecs): a bounded stand-in (labelled, never counted) generates documents together with a structural signature and compares it with the AST of the real parser; it found F31 (group rules whose entry starts like a type - `g = k: int`, `g = tstr => int`, `g = 2*3 k: int` - were rejected; fixed).',
+        'level_note': 'Trusted: Kani/CBMC, the regex-based extraction of the control_name alternatives from cddl.pest; the generator and signature reader of replay/src/u10b.rs. Not covered: all other grammar rules (pest PEG vs ABNF) beyond the generated documents; rejection of underivable texts.',
         'design_ref': 'DESIGN.md 4 U10',
         'scope': 'control_name alternatives of cddl.pest vs token::lookup_control_from_str vs the real parser',
         'assumptions': ['pest_derive compiles cddl.pest as written (ordered choice)'],
